@@ -60,7 +60,8 @@ CHECKS["C02"] = (
     "All ordered pairs inside complete labelled universes (MolGraph n<=3 all x all, n=4 x representatives; thorough all 1.2M "
     "labelled pairs n<=4), representatives x representatives for larger universes of all four classes, single-feature "
     "mutations of symmetric graphs, all cross-class pairs, all 26 pairs of non-isomorphic graphs with <=7 vertices that colour "
-    "refinement cannot separate under every renumbering, and descriptor-class sequences over identical atom tuples: whenever the library says equal, a brute-force search must find a "
+    "refinement cannot separate under every renumbering, two-unit graphs against copies written with hash-colliding identifiers, "
+    "and descriptor-class sequences over identical atom tuples: whenever the library says equal, a brute-force search must find a "
     "bijection preserving elements, bonds, bond roles, descriptors up to symmetry and stereo changes.",
     "Trusted: refiso (self-tested against n! enumeration) and refstereo; fully specified parities only.",
     "DESIGN.md 5/C02, 4.2")
@@ -77,14 +78,16 @@ CHECKS["C16"] = (
     "All pairs of class representatives whose (element, neighbour elements) multisets differ, all 70 element-distinct "
     "tetrahedral quadruples and all 784 XYC=CZW double bonds with 0-2 atom chains (R/S, E/Z), all pairs of reaction graph "
     "representatives whose reactant/product/TS multisets differ, every reaction vs its reverse, and all 15625 role assignments "
-    "on four labelled atoms (three element assignments, both reaction classes) decided by hash buckets: hashes must differ.",
+    "on four labelled atoms (three element assignments, both reaction classes) decided by hash buckets; elementary edits of "
+    "hashed graphs, of their copies and of constructor copies: hashes must differ.",
     "Trusted: the multiset computed from the reference model; E/Z collisions of the unchanged tree are listed input by input "
     "in known_findings.json (pinned StereoMolGraph hash values forbid a repair).",
     "DESIGN.md 5/C16")
 
 CHECKS["C05"] = (
     ENUM + " (set of all valid bijections from backtracking over atom bijections)",
-    "For all ordered pairs of complete small universes and every label mode / stereo flag combination the full list yielded "
+    "For all ordered pairs of complete small universes and every label mode (default, elements, constant, degree, mismatching, "
+    "caller labels with colliding hashes) / stereo flag combination the full list yielded "
     "by vf2pp_all_isomorphisms is compared as a set with the set of valid bijections found by an independent backtracking "
     "search: no invalid mapping, none missing, none twice; symmetric graphs up to 14 atoms against themselves and relabelled "
     "copies; topological_symmetry_number against the number of stereo-preserving automorphisms.",
@@ -120,14 +123,16 @@ CHECKS["C15"] = (
     ENUM + " (all specs x three identifier pools; snapshot identity after the round trip)",
     "Every spec of all four universes (every descriptor class, parity incl. None, placeholders, formed/broken/fleeting bonds, all 7 "
     "kind combinations of atom and bond stereo changes, empty graph) in three identifier pools (0..n-1, negative, >=2^31), once "
-    "more with attributes outside the format on every atom and bond, and with hash-colliding identifiers: "
+    "more with attributes outside the format on every atom and bond, with hash-colliding identifiers, with static bond descriptors "
+    "on bonds that carry a role: "
     "deserialize(serialize(g)) has the same class, an identical snapshot, compares equal and hashes equal.",
     "Trusted: snapshot; attributes other than element/role are not part of the format.", "DESIGN.md 5/C15")
 CHECKS["C17"] = (
     ENUM + " (all subsets x 7 container kinds; all 3^n two-piece covers; all component orders)",
-    "Every spec with <=5 atoms x every subset S passed as list/tuple/set/frozenset/dict keys/generator/iterator: subgraph equals "
+    "Every spec with <=5 atoms x every subset S passed as list/tuple/set/frozenset/dict keys/generator/iterator and with repeated "
+    "atoms: subgraph equals "
     "the induced labelled subgraph of the reference model; components equal the union-find partition; compose over all 3^n "
-    "covers by two (overlapping) pieces equals the labelled union with later-wins; composing the component subgraphs in every "
+    "covers by two (overlapping) pieces equals the labelled union with later-wins and leaves the pieces unchanged; composing the component subgraphs in every "
     "order reproduces the graph; graphs of 126-300 (thorough 1100) atoms: components, node components, compose of the "
     "component subgraphs, a large induced subgraph.",
     "Trusted: refgraph.subgraph/compose/components.", "DESIGN.md 5/C17")
@@ -139,7 +144,8 @@ CHECKS["C07"] = (
     "permutations up to 7 atoms (families above), the 24 cube rotations composed with a generic rotation and translation, three "
     "reflections and three noise levels; the perceived graph renamed back must have the same bonds and spatially identical "
     "descriptors (mirror images under reflection) and every descriptor must name the centre and exactly its bonded neighbours; "
-    "reaction triples with independently moved geometries.",
+    "reaction triples with independently moved geometries; 288 atoms under six reorderings; a caller-supplied switching function on a "
+    "five-coordinate carbon under all 720 orders; the caller's coordinate array overwritten after the Geometry was built.",
     "Trusted: harness-side general-position guard and refstereo; a finite grid of a continuum (VERIF_SEED picks the generic "
     "motions and noise vectors).", "DESIGN.md 5/C07")
 CHECKS["C18"] = (
@@ -147,13 +153,15 @@ CHECKS["C18"] = (
     "Structural part on every symmetric 0/1 matrix with n<=4 and every element list; chemical part on every connected neutral "
     "closed-shell multigraph of <=3 (thorough 4) heavy atoms from C,N,O,S(II/VI),P(III/V),halogens with H filled in, plus 28 "
     "listed aromatic/cumulated systems and all C4-C5 (thorough C6) hydrocarbons, each in all atom orders (small) or "
-    "shifts/reversal/transpositions: standard valences, no charges, no radicals, support equals connectivity.",
-    "Trusted: the enumerator's valence bookkeeping.", "DESIGN.md 5/C18")
+    "shifts/reversal/transpositions: standard valences, no charges, no radicals, support equals connectivity; the public path "
+    "to_rdmol(generate_bond_orders=True) under three identifier schemes, both insertion orders and for graphs cut out with subgraph().",
+    "Trusted: the enumerator's valence bookkeeping; RDKit as the carrier of the exported orders.", "DESIGN.md 5/C18")
 CHECKS["C20"] = (
     ENUM + " (value grid x element cycle x comment lines; all 118x118 element pairs at both sides of the cut-off)",
     "XYZ write/read round trip over a coordinate value grid (signs, magnitudes up to 1e6, half-ulp-of-print cases), all 118 "
     "elements, 1..1001 (thorough 10001) atoms and 11 comment lines; distance connectivity for all 13924 element pairs just below/above the cut-off "
-    "and at distance 0 and 1e-9 x cut-off (coincident atoms), through the matrix API, the scalar API and MolGraph.from_geometry; invariance under rigid motion and atom permutation.",
+    "and at distance 0 and 1e-9 x cut-off (coincident atoms), through the matrix API, the scalar API (also exactly at the cut-off "
+    "and one ulp below) and MolGraph.from_geometry; invariance under rigid motion and atom permutation.",
     "Trusted: the covalent radii table (read as data).", "DESIGN.md 5/C20")
 
 CHECKS["C12"] = (
@@ -169,7 +177,8 @@ CHECKS["C13"] = (
     ENUM + " (every descriptor ordering x parity of every coordination class, two identifier pools)",
     "All 48/48/24/240/1440 orderings-and-parities of tetrahedral (with and without lone pair), square planar, trigonal "
     "bipyramidal and octahedral stars in two identifier pools with permuted insertion order, two-unit graphs, chains of two / "
-    "three directly bonded coordination centres of every class pair, centres with a stereogenic ligand atom, all E/Z double "
+    "three directly bonded coordination centres of every class pair, centres with a stereogenic ligand atom, E/Z chains of 130 / "
+    "262 atoms, all E/Z double "
     "bonds over 5 substituent elements with regenerated bond orders, and imported organics: export then import by atom-map "
     "number reproduces atoms, elements, bonds and spatially identical descriptors; export leaves the graph unchanged.",
     "Trusted: RDKit as the carrier; identifiers must be positive (atom-map numbers).", "DESIGN.md 5/C13")
@@ -179,7 +188,8 @@ CHECKS["C14"] = (
     "RDKit (reversed, rotated): annotation graph equals coordinate graph after "
     "removing planar-bond descriptors of non-double bonds; for SP/TB/OH every placement of distinct ligands on the template "
     "vertices (24/120/720) x bond-creation orders x centre position x noise: the label RDKit assigns from 3D, imported, gives a "
-    "descriptor spatially identical to the one perceived from the same coordinates.",
+    "descriptor spatially identical to the one perceived from the same coordinates; elongated octahedra perceived with a "
+    "caller-supplied switching function; every Geometry is built from a scratch array that is overwritten afterwards.",
     "Trusted: RDKit embedding and AssignStereochemistryFrom3D; guarded/flattened/short-contact conformers are skipped and "
     "counted.", "DESIGN.md 5/C14")
 
